@@ -12,7 +12,8 @@ filter.  The model follows the function stage by stage:
                  feed filters, removal of empty `sources`/`outputs`;
 * `scanPorts`  — the pass that seeds `max_port`, collects `non_mq_output_ids` and the default address of every
                  filter that has explicit MQ outputs (wildcard hosts become `localhost`, same port);
-* `resolveAll` — id sources → addresses, allocation of `tcp://*:P` (P = `max_port += stride`) or `ipc://id`;
+* `resolveAll` — id sources → addresses, allocation of `tcp://*:P` (P = `max_port += stride`) or, with `--ipc`, of
+                 the first name of `ipc://id`, `ipc://id-2`, `ipc://id-3`, … that is not in `ipc_addrs`;
 * `finish`     — the final key ordering (`PARAM_ORDER` first).
 
 Strings are `List Char`.  Inputs that are *parameters* of the model (supplied by the harness from the real
@@ -20,8 +21,11 @@ code, universally quantified in the theorems): `jv` = `json_getval` on a token, 
 `filter_can_do_filter_outputs` on a class token, `order` = `PARAM_ORDER`.
 
 `patched = true` is the behaviour with `pending_fixes/C12-port-scan.diff` (every `host:port` of every `sources`
-and `outputs` entry seeds `max_port`, helper `addr_port`); `patched = false` is the pinned behaviour (only tcp://
-outputs of filters all of whose outputs are MQ addresses), kept for the negative witnesses.
+and `outputs` entry seeds `max_port`, helper `addr_port`) and `pending_fixes/C12-ipc-name-clash.diff` (the same scan
+collects every `ipc://` endpoint the user named into `ipc_addrs`; the `--ipc` allocator skips names in that set and
+adds what it allocates); `patched = false` is the pinned behaviour (only tcp:// outputs of filters all of whose
+outputs are MQ addresses seed `max_port`; no `ipc_addrs`, the allocated name is always `ipc://id`), kept for the
+negative witnesses.
 
 Not modelled (the model answers `Exn.unmodelled`, the harness does not compare those cases): `-env…` options,
 `id`/`sources`/`outputs` values that are JSON lists, objects or non-integer numbers.  Python `str.strip()` is
@@ -293,6 +297,7 @@ structure ScanRes where
   maxPort : Int
   nonMq : List Val
   srcById : List (Val × Str)
+  ipcUsed : List Str           -- PATCH `ipc_addrs` (a Python `set`: only membership is ever asked)
 deriving Repr, DecidableEq
 
 /-- entries of a `sources`/`outputs` value when `split_commas_maybe` yields a list -/
@@ -305,6 +310,10 @@ def seenPorts (f : Flt) : List Int :=
   (entriesOf (attr f.cfg kSources) ++ entriesOf (attr f.cfg kOutputs)).filterMap addrPort
 
 def maxList (m : Int) (l : List Int) : Int := l.foldl max m
+
+/-- PATCH: every `ipc://` endpoint named in this filter's `sources` and `outputs`, `only_mq_addr` applied -/
+def userIpc (f : Flt) : List Str :=
+  ((entriesOf (attr f.cfg kSources) ++ entriesOf (attr f.cfg kOutputs)).filter fun a => sIpc.isPrefixOf a).map onlyMq
 
 /-- `int((only_mq_addr(output[6:]).rsplit(":", 1) + [5550])[:2][1])` -/
 def tcpPort (o : Str) : Except Exn Int :=
@@ -334,7 +343,7 @@ def connAddr (first : Str) : Str :=
 
 def scanStep (patched : Bool) (sr : ScanRes) (f : Flt) : Except Exn ScanRes :=
   let m1 := if patched then maxList sr.maxPort (seenPorts f) else sr.maxPort
-  let sr1 := { sr with maxPort := m1 }
+  let sr1 := { sr with maxPort := m1, ipcUsed := if patched then sr.ipcUsed ++ userIpc f else sr.ipcUsed }
   match attr f.cfg kOutputs with
   | .str s =>
     match splitCommas s with
@@ -356,6 +365,8 @@ structure RS where
   maxPort : Int
   srcById : List (Val × Str)
   allocs : List (Str × Int)    -- ghost: (id, port) allocated so far, newest first
+  ipcUsed : Option (List Str)  -- PATCH `ipc_addrs`, newest first; `none` = the pinned code, which has no such set
+  ipcAllocs : List (Str × Str) -- ghost: (id, ipc name) allocated so far, newest first
 deriving Repr, DecidableEq
 
 /-- `config_by_id.get(id)` for a `str` key (ids are unique after `dupCheck`) -/
@@ -374,6 +385,25 @@ def setOutputs (fs : List Flt) (id : Str) (o : Str) : List Flt :=
 def tcpOut (p : Int) : Str := sTcp ++ ['*', ':'] ++ natStr p            -- f"tcp://*:{max_port}"
 def tcpConn (p : Int) : Str := sTcp ++ sLocalhost ++ [':'] ++ natStr p   -- f"tcp://localhost:{max_port}"
 
+/-- the names the `--ipc` allocator tries for `id`, in order: `ipc://id`, `ipc://id-2`, `ipc://id-3`, … -/
+def ipcCand (id : Str) : Nat → Str
+  | 0 => sIpc ++ id
+  | k + 1 => sIpc ++ id ++ '-' :: Nat.toDigits 10 (k + 2)
+
+/-- PATCH `while new_source in ipc_addrs: new_source = f"ipc://{id}-{(n := n + 1)}"`, started at candidate `k`.
+The candidates are pairwise different, so at most `used.length` of them are in `used` and the loop ends within
+`used.length + 1` tests: `fuel` is never exhausted (`pickIpc_spec` in `OFProps/C12.lean`). -/
+def pickIpcFrom (used : List Str) (id : Str) : Nat → Nat → Str
+  | 0, k => ipcCand id k
+  | fuel + 1, k => if used.contains (ipcCand id k) then pickIpcFrom used id fuel (k + 1) else ipcCand id k
+
+def pickIpc (used : List Str) (id : Str) : Str := pickIpcFrom used id (used.length + 1) 0
+
+/-- the name allocated for `id` with `--ipc`: pinned code `ipc://id`; PATCH the first candidate not in `ipc_addrs` -/
+def ipcName : Option (List Str) → Str → Str
+  | none, id => sIpc ++ id
+  | some used, id => pickIpc used id
+
 /-- one `for i, source in enumerate(sources)` iteration: new state and the new `sources[i]` -/
 def resolveEntry (ipc : Bool) (nonMq : List Val) (self : Val) (st : RS) (src : Str) : Except Exn (RS × Str) :=
   if isMq src then pure (st, src)
@@ -389,12 +419,14 @@ def resolveEntry (ipc : Bool) (nonMq : List Val) (self : Val) (st : RS) (src : S
         | none =>
           if truthy (attr g.cfg kOutputs) then throw .valueError    -- "something wrong"
           else if ipc then
-            let a := sIpc ++ id
-            pure ({ st with fs := setOutputs st.fs id a, srcById := st.srcById ++ [(.str id, a)] }, a ++ src.drop id.length)
+            let a := ipcName st.ipcUsed id
+            pure ({ st with fs := setOutputs st.fs id a, srcById := st.srcById ++ [(.str id, a)],
+                            ipcUsed := st.ipcUsed.map (a :: ·), ipcAllocs := (id, a) :: st.ipcAllocs },
+                  a ++ src.drop id.length)
           else
             let p := st.maxPort + OF.Facts.CLI_PORT_STRIDE
-            pure ({ fs := setOutputs st.fs id (tcpOut p), maxPort := p,
-                    srcById := st.srcById ++ [(.str id, tcpConn p)], allocs := (id, p) :: st.allocs },
+            pure ({ st with fs := setOutputs st.fs id (tcpOut p), maxPort := p,
+                            srcById := st.srcById ++ [(.str id, tcpConn p)], allocs := (id, p) :: st.allocs },
                   tcpConn p ++ src.drop id.length)
 
 def resolveEntries (ipc : Bool) (nonMq : List Val) (self : Val) : RS → List Str → Except Exn (RS × List Str)
@@ -429,8 +461,9 @@ def resolveFrom (ipc : Bool) (nonMq : List Val) : List Nat → RS → Except Exn
   | [], st => pure st
   | i :: r, st => (resolveFilter ipc nonMq st i).bind fun st' => resolveFrom ipc nonMq r st'
 
-def resolveAll (ipc : Bool) (pre : List Flt) (sr : ScanRes) : Except Exn RS :=
-  resolveFrom ipc sr.nonMq (List.range pre.length) ⟨pre, sr.maxPort, sr.srcById, []⟩
+def resolveAll (patched ipc : Bool) (pre : List Flt) (sr : ScanRes) : Except Exn RS :=
+  resolveFrom ipc sr.nonMq (List.range pre.length)
+    ⟨pre, sr.maxPort, sr.srcById, [], if patched then some sr.ipcUsed else none, []⟩
 
 /-! ## stage 5: key order, and the whole function -/
 
@@ -440,7 +473,7 @@ def finish (order : List Str) (c : Config) : Config :=
 /-- a bound `tcp://host:P` output occupies `P` (PUB) and `P + 1` (the PULL request socket, `zeromq.py`) -/
 def portsPerOutput : Int := 2
 
-def initScan : ScanRes := ⟨OF.Facts.CLI_MAX_PORT_INIT, [], []⟩
+def initScan : ScanRes := ⟨OF.Facts.CLI_MAX_PORT_INIT, [], [], []⟩
 
 /-- everything up to (excluding) the final re-ordering -/
 def wire (patched : Bool) (jv : Str → Val) (cls : Str → ClsInfo) (toks : List Str) (ipc : Bool) : Except Exn RS :=
@@ -448,7 +481,7 @@ def wire (patched : Bool) (jv : Str → Val) (cls : Str → ClsInfo) (toks : Lis
   else (scan jv cls toks [] none).bind fun fs0 =>
     (prep fs0).bind fun pre =>
       (scanPorts patched pre initScan).bind fun sr =>
-        resolveAll ipc pre sr
+        resolveAll patched ipc pre sr
 
 /-- `parse_filters(args, ipc)`; `toks` = the tokens in command-line order (`args` is their reversal) -/
 def parseFilters (patched : Bool) (jv : Str → Val) (cls : Str → ClsInfo) (order : List Str) (toks : List Str) (ipc : Bool) :
